@@ -29,8 +29,9 @@ class Prop:
     next collector call / before disconnection (the test broke the documented contract) is `tainted`: the property
     then only demands that it is resumed exactly once with *some* emitted value or the cancellation."""
 
-    def __init__(self, void):
+    def __init__(self, void, hook=False):
         self.void = void
+        self.hook_pending = hook      # no signal yet: created by the first listener's hook_up()
         self.alive = True
         self.hs = [True]
         self.ls = {}          # id -> dict
@@ -166,6 +167,19 @@ class Prop:
     # ---- one operation --------------------------------------------------------------------------
     def op(self, w, head, evs):
         k = w[0]
+        if self.hook_pending and k != "end":
+            if k == "hlisten":
+                self.hook_pending = False
+                i = self.new_listener(w[1])
+                self.await_emitter(i, evs)
+            elif k == "hlisten0":
+                # the collector is dropped by the registration function: subscribed, then disconnected at once
+                self.hook_pending = False
+                i = self.new_listener(w[1])
+                self.await_emitter(i, evs)
+                for j in self.drop_one(0, evs):
+                    self.resume(j, evs)
+            return
         if k == "listen":
             i = self.new_listener(w[1])
             self.await_emitter(i, evs)
@@ -251,11 +265,11 @@ class Prop:
 
 def run_prop(case, out):
     hdr = case["lines"][0].split()
-    p = Prop(void=len(hdr) > 3 and hdr[3] == "void")
+    p = Prop(void=len(hdr) > 3 and hdr[3] == "void", hook=len(hdr) > 4 and hdr[4] == "hook")
     for opl, line in zip(case["lines"][1:], out):
         w = opl.split()
         head, evs, kinds = parse_line(line)
-        if head and head[0] == "bad-op" and w[0] not in ("emit", "connect", "newcol", "newsig", "drop", "wake", "flush"):
+        if head and head[0] == "bad-op" and w[0] not in ("emit", "connect", "newcol", "newsig", "drop", "wake", "flush") and not p.hook_pending:
             p.msgs.append("harness: unexpected bad-op for %r" % opl)
         p.op(w, head, evs)
         for i, kd in kinds.items():
@@ -274,16 +288,18 @@ class SigSuite(Suite):
     chunk = 40
     nontrivial_rule = "at least one value delivered to a waiting listener and at least one cancellation"
 
-    def gen_case(self, rng):
+    def gen_case(self, rng, big=False):
         void = rng.random() < 0.25
         flushed = rng.random() < 0.6
+        hook = rng.random() < 0.08
         nops = rng.randint(4, 12) if rng.random() < 0.3 else rng.randint(10, 40)
-        lines = ["case 0 sig %s" % ("void" if void else "int")]
+        if big:
+            nops = rng.randint(40, 120)
+        lines = ["case 0 sig %s%s" % ("void" if void else "int", " hook" if hook else "")]
         v = [10]
-        nlist = 0           # ids handed out (upper bound: connect may be refused when dead)
+        st = {"nlist": 0, "dead": False}
         gate_ids = []       # listeners whose script contains a gate
         hs = [True]
-        held = 0
 
         def val():
             if void:
@@ -304,17 +320,37 @@ class SigSuite(Suite):
         def flav():
             return rng.choice(FLAVOURS)
 
-        # start with a few listeners most of the time
-        for _ in range(rng.choice([0, 1, 2, 2, 3, 5])):
-            if rng.random() < 0.7:
-                sc = script()
-                if "g" in sc:
-                    gate_ids.append(nlist)
-                lines.append("listen %s" % sc)
+        def listen(kind="listen"):
+            sc = script()
+            if "g" in sc:
+                gate_ids.append(st["nlist"])
+            lines.append("%s %s" % (kind, sc))
+            st["nlist"] += 1
+
+        def connect():
+            lines.append("connect %d" % rng.choice([0, 0, 1, 2, 3, 5, 100]))
+            if not st["dead"]:
+                st["nlist"] += 1
+
+        if hook:
+            if rng.random() < 0.15:
+                listen("hlisten0")
+                st["dead"] = True
+                hs[0] = False
             else:
-                lines.append("connect %d" % rng.choice([0, 1, 2, 3, 100]))
-            nlist += 1
+                listen("hlisten")
+        # start with a few listeners most of the time
+        for _ in range(rng.choice([0, 1, 2, 2, 3, 5, 8] if not big else [4, 8, 12])):
+            if rng.random() < 0.7:
+                listen()
+            else:
+                connect()
+        after_death = 0
         for _ in range(nops):
+            if st["dead"]:
+                after_death += 1
+                if after_death > 3 and rng.random() < 0.5:
+                    break
             r = rng.random()
             if r < 0.34:
                 if flushed:
@@ -322,11 +358,15 @@ class SigSuite(Suite):
                         # held, but flushed before the next collector call: still within the contract
                         lines.append("emit %s %d hold" % (flav(), val()))
                         for _ in range(rng.randint(0, 2)):
-                            lines.append(rng.choice(["listen %s" % script_nogate(rng), "connect %d" % rng.randint(0, 3), "newcol"]))
-                            if lines[-1] == "newcol":
+                            k = rng.random()
+                            if k < 0.4:
+                                lines.append("listen %s" % script_nogate(rng))
+                                st["nlist"] += 1
+                            elif k < 0.7:
+                                connect()
+                            elif not st["dead"]:
+                                lines.append("newcol")
                                 hs.append(True)
-                            else:
-                                nlist += 1
                         lines.append("flush")
                     else:
                         lines.append("emit %s %d" % (flav(), val()))
@@ -334,68 +374,65 @@ class SigSuite(Suite):
                     lines.append("emit %s %d" % (flav(), val()))
                 else:
                     lines.append("emit %s %d hold" % (flav(), val()))
-                    held += 1
             elif r < 0.46:
-                sc = script()
-                if "g" in sc:
-                    gate_ids.append(nlist)
-                lines.append("listen %s" % sc)
-                nlist += 1
+                listen()
             elif r < 0.52:
                 n = rng.randint(1, 4)
                 scs = [script() for _ in range(n)]
                 for j, sc in enumerate(scs):
                     if "g" in sc:
-                        gate_ids.append(nlist + j)
+                        gate_ids.append(st["nlist"] + j)
                 lines.append("tlisten " + " ".join(scs))
-                nlist += n
+                st["nlist"] += n
             elif r < 0.60:
-                lines.append("connect %d" % rng.choice([0, 0, 1, 2, 3, 5, 100]))
-                nlist += 1
+                connect()
             elif r < 0.68:
                 toks = []
                 for _ in range(rng.randint(1, 5)):
-                    if not flushed and rng.random() < 0.08:
+                    if not flushed and rng.random() < 0.06:
                         toks.append("X")
                     else:
                         mode = "a" if flushed or rng.random() < 0.5 else "d"
                         toks.append("%s:%s:%d" % (mode, flav(), val()))
                 lines.append("burst " + " ".join(toks))
-            elif r < 0.74:
-                if gate_ids and rng.random() < 0.85:
+                if "X" in toks:
+                    st["dead"] = True
+                    hs[:] = [False] * len(hs)
+            elif r < 0.75:
+                if gate_ids and rng.random() < 0.9:
                     lines.append("wake %d" % rng.choice(gate_ids))
                 else:
-                    lines.append("wake %d" % rng.randint(0, max(nlist, 1)))
-            elif r < 0.80:
-                lines.append(rng.choice(["newcol", "newsig"]))
-                hs.append(True)
+                    lines.append("wake %d" % rng.randint(0, max(st["nlist"], 1)))
+            elif r < 0.81:
+                if not st["dead"] or rng.random() < 0.2:
+                    lines.append(rng.choice(["newcol", "newsig"]))
+                    if not st["dead"]:
+                        hs.append(True)
             elif r < 0.88:
                 livek = [k for k, a in enumerate(hs) if a]
-                if livek and (len(livek) > 1 or rng.random() < 0.35):
+                if livek and (len(livek) > 1 or rng.random() < (0.15 if big else 0.3)):
                     k = rng.choice(livek)
                     hs[k] = False
                     lines.append("drop %d" % k)
-                elif rng.random() < 0.2:
+                    if not any(hs):
+                        st["dead"] = True
+                elif rng.random() < 0.1:
                     lines.append("drop %d" % rng.randint(0, len(hs)))
             elif r < 0.92:
                 lines.append("flush")
-                held = max(0, held - 1)
             elif r < 0.95:
                 lines.append("listen0 %s" % script())
-                nlist += 1
+                st["nlist"] += 1
             else:
-                sc = script()
-                if "g" in sc:
-                    gate_ids.append(nlist)
-                lines.append("listen %s" % sc)
-                nlist += 1
-                lines.append("emit %s %d" % (flav(), val()))
+                listen()
+                if not st["dead"]:
+                    lines.append("emit %s %d" % (flav(), val()))
         lines.append("end")
         return {"id": 0, "lines": lines}
 
     def gen_cases(self, rng, tier):
         n = 4000 if tier == "quick" else 150000
-        return [self.gen_case(rng) for _ in range(n)]
+        return [self.gen_case(rng, big=(i % 25 == 24)) for i in range(n)]
 
     def nontrivial(self, case, out):
         txt = " ".join(out)
